@@ -331,7 +331,9 @@ CLAIMED = {
              "incl. set / record / extension VALUE nodes, and the same policies as the JSON decoder builds them), Validator.Entity / "
              "Entities / Request over data derived from the declared shapes. Trace_Schema (Focus total): every run returned; a "
              "worker death (fatal stack overflow), a panic or the deadline is a violation. The graph families are also generated "
-             "inside a namespace of two segments; a 24-level ladder of diamonds in the action hierarchy must validate within the deadline.",
+             "inside a namespace of two segments; a 24-level ladder of diamonds in the action hierarchy must validate within the deadline. "
+             "Graphs too large to enumerate (five and six nodes) are drawn by a seeded hash inside the specification (family big: DAGs, "
+             "loop-free and arbitrary graphs at four densities; 150 graphs quick, 4000 thorough), ten schemas each, M1 checked on them.",
         design_ref="DESIGN.md 4 C16",
         note=TRUSTED + "Termination is a 120 s deadline; crashes are observed over the enumerated families, not proved absent. Policies / "
              "entities / requests are derived from each resolved schema by the harness.",
@@ -350,7 +352,8 @@ CLAIMED = {
              "schema text and as JSON, parses each back, resolves, renders again, and converts text -> JSON and JSON -> text. "
              "Trace_Schema (Focus codec): real resolution = Resolve(schema) (same resolved schema or failure); for every schema "
              "that resolves, each round trip parses, resolves to the same resolved schema and repeats its bytes, and both conversions "
-             "commute with resolution.",
+             "commute with resolution. Five- and six-node graphs are drawn by a seeded hash inside the specification (family big, "
+             "150 graphs quick / 4000 thorough, ten schemas each).",
         design_ref="DESIGN.md 4 C17",
         note=TRUSTED + "The two concrete syntaxes are not modelled (the statement is about commuting with resolution). ASTs without a text "
              "form are excluded where named: an EntityTypeRef in a type position shadowed by a common type of the same name; appliesTo "
